@@ -21,7 +21,7 @@ def translate(ctx):
     src = core.REPO / "src/fdtdx/fdtd/fdtd.py"
     text = T.translate_function(src, "_reversible_slice_boundaries", "gen_slice_boundaries",
                                 [("time_steps_total", "(time_steps_total : Z)"), ("num_slices", "(num_slices : Z)")], "list Z")
-    g = core.COQ / "gen" / "Gen_C05.v"
+    g = core.gen_path("Gen_C05")
     g.parent.mkdir(exist_ok=True)
     g.write_text("From Coq Require Import ZArith List.\nFrom FV Require Import base.PyNum model.Loop.\nOpen Scope Z_scope.\n" + text +
                  "Lemma gen_eq_model : forall T k, gen_slice_boundaries T k = slice_boundaries T k.\nProof. reflexivity. Qed.\n")
